@@ -97,6 +97,24 @@ func mwLargeReplay(in io.Reader, raw bool, args []string) (*Summary, error) {
 				}
 			}
 		}
+		// a probability is never above 1: the upper tail walked point by point (no tolerance; sums of ~1e3 masses that
+		// overshoot by an ulp show here), and never below the value before it by more than rounding
+		{
+			d := stats.UDist{N1: lc.N1, N2: lc.N2}
+			prev := 0.0
+			for u := top - 400; u <= top+1; u++ {
+				if u < 0 {
+					continue
+				}
+				sum.Checks++
+				g := d.CDF(float64(u))
+				if g > 1 || g < prev-1e-12 {
+					sum.viol("CDF-large", small, "UDist{%d,%d}.CDF(%d)=%.17g (before it %.17g): above 1 or stepping back", lc.N1, lc.N2, u, g, prev)
+					break
+				}
+				prev = g
+			}
+		}
 		// MannWhitneyUTest on random untied samples of these sizes (exact method at the default limits)
 		if lc.N1 <= stats.MannWhitneyExactLimit && lc.N2 <= stats.MannWhitneyExactLimit {
 			for rep := 0; rep < 6; rep++ {
